@@ -120,10 +120,10 @@ CHECKS = {
         engine="P",
         category="exploration",
         text=("Valid histories with ill-formed entry points (prefix-overlapping kept paths in seeded order / separation / "
-              "nesting; call cycles of length 1-4 through calls, keeps, higher-order references; nested dds.eval) evaluated "
+              "nesting; call cycles of length 1-4 through calls, keeps, higher-order references and methods; nested dds.eval) evaluated "
               "at seeded positions in the same process and store as the valid evaluations: error code, empty execution log, "
               "unchanged store snapshot, and twin-history equivalence afterwards. Placements are sampled, not enumerated."),
-        note=PIPE_NOTE + " Cycles through methods are not generated.",
+        note=PIPE_NOTE,
         technique="deterministic simulation: seeded placement of ill-formed evaluations in stateful histories, snapshot and twin-history oracles",
         design_ref="DESIGN.md 7 (C11)",
     ),
